@@ -40,6 +40,11 @@ def main():
         topo = rng.choice(['sole', 'relay', 'several'])
         stall_after = rng.randint(0, 6)
         speeds = [rng.choice([0, 0.01, 0.05, 0.3]) for _ in range(3)]
+        if rng.random() < 0.3:
+            # a producer much slower than its consumer for a long while BEFORE the stall: the consumer re-requests every 100 ms,
+            # so many duplicate requests are queued per frame - none of them may count as credit once it stalls
+            speeds[0] = rng.choice([1.3, 2.5])
+            stall_after = rng.randint(12, 40)
         delay = rng.choice([(0, 0), (0, 30), (0, 80)])
         seed = rng.randrange(10 ** 6)
         case = dict(topo=topo, stall_after=stall_after, speeds=speeds, delay_ms=delay, seed=seed)
